@@ -176,18 +176,17 @@ Qed.
    and for every segment D_g is the nested time-ordered integral of the segment's time-domain control
    matrix and step_g its Fourier integral times the phase e^{i w t_g}.                                    *)
 Theorem F2_assembly_partial evs Vs Qs ncoeffs dts ts a b k l o :
-  0 <= thr2 <= thr ->
+  0 <= thr -> 0 <= thr2 ->
   length evs = length dts -> length Vs = length dts ->
   (length dts <= length Qs)%nat -> (length dts <= length ts)%nat -> length ncoeffs = na ->
   (a < na)%nat -> (b < na)%nat -> (k < nk)%nat -> (l < nk)%nat -> (o < no)%nat ->
-  no_taylor d omega thr evs dts o ->
+  no_taylor d omega thr evs dts o -> no_taylor d omega thr2 evs dts o ->
   let segs := fresh_segs d thr omega basis nopers evs Vs Qs ts dts (transpose_coeffs RO (length dts) ncoeffs) in
   a5get RO (second_order_ff RO d thr thr2 evs Vs Qs omega basis nopers ncoeffs dts ts (None, None)) a b k l o =
     so_spec d thr2 na nk no omega a b k l o false segs 0c /\
   Forall2 (seg_td a b k l o) segs (firstn (length dts) ts).
 Proof.
-  intros [Hthr2 Hle] H1 H2 H3 H4 H5 Ha Hb Hk Hl Ho Hmask segs. assert (Hthr : 0 <= thr) by lra.
-  pose proof (no_taylor_mono d omega _ _ _ _ _ Hle Hmask) as Hmask2. split.
+  intros Hthr Hthr2 H1 H2 H3 H4 H5 Ha Hb Hk Hl Ho Hmask Hmask2 segs. split.
   - apply second_order_ff_get; auto.
   - unfold segs. clear segs.
     assert (Hnc : forall nc, In nc (transpose_coeffs RO (length dts) ncoeffs) -> length nc = na)
